@@ -326,3 +326,5 @@ def check(ctx, run):  # noqa: F811
     # converted to the instrument's device and dtype
     from ..registry import primary_histories_rule
     primary_histories_rule(ctx, run, "C17.R8")
+    from ..registry import reconfigure_rule
+    reconfigure_rule(ctx, run, "C17.R8")
